@@ -438,8 +438,8 @@ pub fn initial_states(out: &str) {
         .flatten();
         judge(format!("{} lj circle", gname), gname, r.as_ref().and_then(|x| x.0.clone()), r.map(|x| x.1));
         for radius in [0.2, 0.5, 0.637556, 1.0, 1.4].iter() {
-            for angle in [60., 90., 120., 180.].iter() {
-                for dist in [0.2, 0.6, 1.0, 2.0].iter() {
+            for angle in [0., 60., 90., 120., 180., 360.].iter() {
+                for dist in [0., 0.2, 0.6, 1.0, 2.0].iter() {
                     let (radius, angle, dist) = (*radius, *angle, *dist);
                     let g2 = suites::group(gname);
                     let r = std::panic::catch_unwind(move || {
